@@ -895,6 +895,16 @@ pub enum CompileError {
     #[error("Type {ty} can only be declared directly as a storage field")]
     InvalidStorageOnlyTypeDecl { ty: String, span: Span },
     #[error(
+        "Storage field \"{field_name}\" does not fit into the storage key space: it occupies {slots} \
+        slots starting at the key {key}, and the key of its last slot would exceed the largest storage key."
+    )]
+    StorageFieldExceedsKeySpace {
+        field_name: String,
+        slots: u64,
+        key: String,
+        span: Span,
+    },
+    #[error(
         "Internal compiler error: Unexpected {decl_type} declaration found.\n\
         Please file an issue on the repository and include the code that triggered this error."
     )]
@@ -1416,6 +1426,7 @@ impl Spanned for CompileError {
             CallParamForNonContractCallMethod { span, .. } => span.clone(),
             StorageFieldDoesNotExist { field_name, .. } => field_name.span(),
             InvalidStorageOnlyTypeDecl { span, .. } => span.clone(),
+            StorageFieldExceedsKeySpace { span, .. } => span.clone(),
             NoDeclaredStorage { span, .. } => span.clone(),
             MultipleStorageDeclarations { span, .. } => span.clone(),
             UnexpectedDeclaration { span, .. } => span.clone(),
